@@ -616,8 +616,10 @@ Definition reps_ok (reps : option Z) : Prop :=
 
 Lemma reps_ok_fit reps : reps_ok reps -> reps_fit reps /\ reps_nonneg reps.
 Proof.
-  destruct reps as [n|]; cbn [reps_ok reps_fit reps_nonneg]; [|auto]. intros H. split; [|lia].
-  apply (int_fits_small n 4300%nat); [lia|]. change (Z.of_nat 4300) with 4300. lia.
+  destruct reps as [n|]; cbn [reps_ok reps_fit reps_nonneg]; [|auto]. intros [H1 H2].
+  assert (H0 : 0 <= n) by (clear H2; lia). split; [|exact H0].
+  apply (int_fits_small n 4300%nat); [clear H2; lia|]. change (Z.of_nat 4300) with 4300.
+  rewrite (Z.abs_eq n H0). exact H2.
 Qed.
 Lemma fit_one : reps_fit (Some 1) /\ reps_nonneg (Some 1).
 Proof. split; [reflexivity|cbn; lia]. Qed.
@@ -645,7 +647,7 @@ Proof.
   destruct (reps_ok_fit reps RO) as [RF RN]. destruct fit_one as [RF1 RN1].
   pose proof M as M0. unfold rec_make in M.
   assert (G1 : match reps with Some n => n <=? 0 | None => false end = false)
-    by (destruct reps as [n|]; cbn [reps_ok] in RO; [lia|reflexivity]).
+    by (destruct reps as [n|]; cbn [reps_ok] in RO; [destruct RO as [RO _]; lia|reflexivity]).
   rewrite G1 in M.
   destruct d as [dd|].
   - (* formats 3 and 4 *)
@@ -660,7 +662,7 @@ Proof.
       destruct (zopt_eqb reps 1 || dur_eqb dd dzero) eqn:Z1.
       * injection M as <-.
         exists (reps_text (Some 1) ++ str_text 0 sp ++ "/" ++ "P0Y"). split.
-        { apply rec_str_fmt3; try reflexivity; [exact RF1|lia]. }
+        { apply rec_str_fmt3; try reflexivity; try exact RF1; lia. }
         destruct (dispatch_pd md local (Some 1) sp "P0Y" "0Y" dzero RN1 PS eq_refl eq_refl eq_refl rec_dur_of_P0Y)
           as (s1 & SP1 & T).
         assert (MK : rec_make md (Some 1) (Some s1) (Some dzero) None = Ok (mkRec (Some 1) (Some s1) None (Some s1) None 3)).
@@ -684,7 +686,7 @@ Proof.
       destruct (zopt_eqb reps 1 || dur_eqb dd dzero) eqn:Z1.
       * injection M as <-.
         exists (reps_text (Some 1) ++ "P0Y" ++ "/" ++ str_text 0 ep). split.
-        { apply rec_str_fmt4; try reflexivity; [exact RF1|lia]. }
+        { apply rec_str_fmt4; try reflexivity; try exact RF1; lia. }
         destruct (dispatch_dp md local (Some 1) ep "P0Y" "0Y" dzero RN1 PE eq_refl eq_refl eq_refl rec_dur_of_P0Y)
           as (e1 & SP1 & T).
         assert (MK : rec_make md (Some 1) None (Some dzero) (Some e1) = Ok (mkRec (Some 1) (Some e1) None (Some e1) None 4)).
@@ -709,18 +711,18 @@ Proof.
     cbn [opt_pt_ok] in PS, PE. pose proof PS as (Vs & Ys & _). pose proof PE as (Ve & Ye & _).
     destruct (zopt_eqb reps 1) eqn:Z1.
     + (* one repetition: the second point is dropped *)
-      injection M as <-.
-      exists (reps_text (Some 1) ++ str_text 0 sp ++ "/" ++ str_text 0 sp). split.
-      { apply (rec_str_fmt1 md _ sp sp "P0Y"); try reflexivity; try lia. exact RF1. }
+      injection M as <-. apply zopt_eqb_true in Z1. subst reps.
+      eexists. split.
+      { apply (rec_str_fmt1 md _ sp sp "P0Y"); try reflexivity; try exact RF1; lia. }
       destruct (dispatch_pp md local (Some 1) sp sp RN1 PS PS) as (s1 & e1 & SP1 & SP2 & T).
       change (rec_make md (Some 1) (Some s1) None (Some e1)) with (Ok (mkRec (Some 1) (Some s1) None (Some s1) (Some s1) 1)) in T.
-      apply (reparsed_equiv md local _ _ _ T). apply zopt_eqb_true in Z1. subst reps.
+      apply (reparsed_equiv md local _ _ _ T).
       refine (conj _ (conj _ (conj _ (conj _ (conj _ _))))); cbn [r_reps r_start r_dur r_end r_second r_fmt orel]; auto.
     + destruct (tp_cmp md sp ep) as [[| |]|] eqn:C; try discriminate M.
       * (* the two points are one instant: a single point, printed with both spellings *)
         injection M as <-.
-        exists (reps_text (Some 1) ++ str_text 0 sp ++ "/" ++ str_text 0 ep). split.
-        { apply (rec_str_fmt1 md _ sp ep "P0Y"); try reflexivity; try lia. exact RF1. }
+        eexists. split.
+        { apply (rec_str_fmt1 md _ sp ep "P0Y"); try reflexivity; try exact RF1; lia. }
         destruct (dispatch_pp md local (Some 1) sp ep RN1 PS PE) as (s1 & e1 & SP1 & SP2 & T).
         change (rec_make md (Some 1) (Some s1) None (Some e1)) with (Ok (mkRec (Some 1) (Some s1) None (Some s1) (Some s1) 1)) in T.
         exists (mkRec (Some 1) (Some s1) None (Some s1) (Some s1) 1). split; [exact T|].
@@ -749,4 +751,94 @@ Proof.
           rewrite F4. exact UX. }
         destruct (dispatch_pp md local reps sp ep RN PS PE) as (s1 & e1 & SP1 & SP2 & T).
         apply (reparsed_regular md local r _ reps (Some sp) None (Some ep) (Some s1) None (Some e1) M0); cbn [orel]; auto.
+Qed.
+
+(* ====================================================================== *)
+(* 6. "single-signed and not negative" is "no negative component"           *)
+(* ====================================================================== *)
+Lemma fully_negative_ltb md d : fully_negative d = true -> dur_ltb md d dzero = true.
+Proof.
+  intros FN. apply (proj1 (dur_order_spec md d dzero)).
+  assert (Z0 : (rough_len md dzero == 0)%Q) by (destruct md; vm_compute; reflexivity).
+  rewrite Z0. unfold rough_len.
+  destruct d as [w|y mo dd h mi s]; cbn [fully_negative DurSpec.dur_years DurSpec.dur_months] in *.
+  - rewrite dur_len_DW. change (0 * DAYS_IN_YEAR md + 0 * 30) with 0. change (inject_Z (0 * 86400)) with 0%Q.
+    assert (L : (inject_Z (604800 * w) < inject_Z 0)%Q) by (apply lt_inj; lia).
+    change (inject_Z 0) with 0%Q in L. lra.
+  - apply andb_true_iff in FN. destruct FN as [A E]. cbn [forallb existsb] in A, E. unfold qsgn in A, E.
+    assert (B : y <= 0 /\ mo <= 0 /\ dd <= 0 /\ Qnum h <= 0 /\ Qnum mi <= 0 /\ Qnum s <= 0) by lia.
+    destruct B as (B1 & B2 & B3 & B4 & B5 & B6).
+    pose proof (Qnum_nonpos_le h B4) as H4. pose proof (Qnum_nonpos_le mi B5) as H5. pose proof (Qnum_nonpos_le s B6) as H6.
+    assert (DY : 360 <= DAYS_IN_YEAR md <= 366) by (destruct md; vm_compute; split; discriminate).
+    rewrite dur_len_DU'.
+    assert (QL : forall q : Q, Qnum q < 0 -> (q < 0)%Q) by (intros q Hq; unfold Qlt; cbn; lia).
+    assert (K1 : (inject_Z ((y * DAYS_IN_YEAR md + mo * 30) * 86400) <= inject_Z 0)%Q) by (apply le_inj; nia).
+    assert (K2 : (inject_Z dd <= inject_Z 0)%Q) by (apply le_inj; lia).
+    change (inject_Z 0) with 0%Q in K1, K2.
+    assert (STRICT : y < 0 \/ mo < 0 \/ dd < 0 \/ Qnum h < 0 \/ Qnum mi < 0 \/ Qnum s < 0) by lia.
+    destruct STRICT as [S|[S|[S|[S|[S|S]]]]].
+    + assert (K : (inject_Z ((y * DAYS_IN_YEAR md + mo * 30) * 86400) < inject_Z 0)%Q) by (apply lt_inj; nia).
+      change (inject_Z 0) with 0%Q in K. lra.
+    + assert (K : (inject_Z ((y * DAYS_IN_YEAR md + mo * 30) * 86400) < inject_Z 0)%Q) by (apply lt_inj; nia).
+      change (inject_Z 0) with 0%Q in K. lra.
+    + assert (K : (inject_Z dd < inject_Z 0)%Q) by (apply lt_inj; lia). change (inject_Z 0) with 0%Q in K. lra.
+    + pose proof (QL h S). lra.
+    + pose proof (QL mi S). lra.
+    + pose proof (QL s S). lra.
+Qed.
+
+Lemma single_signed_nonneg md d : single_signed d = true -> dur_ltb md d dzero = false -> nonneg_dur d = true.
+Proof.
+  unfold single_signed. intros S L. destruct (nonneg_dur d); [reflexivity|]. cbn [orb] in S.
+  rewrite (fully_negative_ltb md d S) in L. discriminate L.
+Qed.
+
+(* the statement with the hypotheses of the property: every given duration is
+   single-signed and printable (that it is not negative follows from the
+   constructor having accepted it) *)
+Definition du_given (d : dur) : Prop := single_signed d = true /\ printable d = true.
+Definition opt_du_given (o : option dur) : Prop := match o with Some d => du_given d | None => True end.
+
+Lemma make_not_negative md reps s d e r : rec_make md reps s (Some d) e = Ok r -> dur_ltb md d dzero = false.
+Proof.
+  unfold rec_make. destruct (match reps with Some n => n <=? 0 | None => false end); [discriminate|].
+  destruct (dur_ltb md d dzero); [discriminate|reflexivity].
+Qed.
+
+Theorem text_roundtrip_given : forall md local reps s d e r,
+  rec_make md reps s d e = Ok r ->
+  shape_ok s d e -> reps_ok reps -> opt_pt_ok md s -> opt_pt_ok md e -> opt_du_given d ->
+  exists t r', rec_str md r = RtOk t /\ rec_of_text md local t = inl (Some r') /\ rec_eqb md r r' = true /\
+               forall k, Forall2 same_point (iter_take md r' k) (iter_take md r k).
+Proof.
+  intros md local reps s d e r M SH RO PS PE PD.
+  assert (PD' : opt_du_ok d).
+  { destruct d as [dd|]; [|exact I]. destruct PD as [SS PR]. split; [|exact PR].
+    apply (single_signed_nonneg md dd SS). exact (make_not_negative md reps s dd e r M). }
+  destruct (text_roundtrip md local reps s d e r M SH RO PS PE PD') as (t & T & r' & A & B & C).
+  exists t, r'. auto.
+Qed.
+
+(* what the last clause says, index by index *)
+Lemma forall2_points : forall (l1 l2 : list tp), Forall2 same_point l1 l2 ->
+  List.length l1 = List.length l2 /\
+  forall i q, nth_error l1 i = Some q -> exists p, nth_error l2 i = Some p /\ same_point q p.
+Proof.
+  induction 1 as [|a b l1 l2 H F IH]; [split; [reflexivity|intros [|i] q E; discriminate E]|].
+  destruct IH as [L N]. split; [cbn [List.length]; rewrite L; reflexivity|].
+  intros [|i] q E; cbn [nth_error] in *.
+  - injection E as <-. exists b. auto.
+  - apply N. exact E.
+Qed.
+
+(* the arithmetic underneath, in one statement *)
+Lemma spelling_irrelevant : forall md reps s s' d d' e e',
+  orel same_point s s' -> orel dur_equiv d d' -> orel same_point e e' ->
+  res_rel rec_equiv (rec_make md reps s d e) (rec_make md reps s' d' e') /\
+  (forall r r' k, rec_equiv r r' -> Forall2 same_point (iter_take md r k) (iter_take md r' k)) /\
+  (forall r r', rec_equiv r r' -> rec_eqb md r r' = true).
+Proof.
+  intros md reps s s' d d' e e' S D E. split; [apply rec_make_c; assumption|]. split.
+  - intros r r' k R. apply iter_take_c. exact R.
+  - intros r r' R. apply rec_equiv_eqb. exact R.
 Qed.
